@@ -214,6 +214,41 @@ def check(*assertions, timeout_ms=60000, want_model=True):
     return r, None
 
 
+def probe(formula, variables, n=600, seed=1, extra=()):
+    """cheap counterexample search before the deciding query: evaluate `formula` (a Bool term that must be
+    unsatisfiable) under n pseudo-random and structured assignments of the bit-vector `variables`.
+    Returns a model-like dict {var: value} for which the formula evaluates to true, or None.
+    A hit is only a *candidate*: callers report it as a counterexample and the runner replays it on the real code."""
+    import random
+    rnd = random.Random(seed)
+    vs = list(variables)
+    pats = []
+    for v in vs:
+        w = v.size()
+        pats.append([0, (1 << w) - 1, 1, 1 << (w - 1), int("55" * ((w + 7) // 8), 16) & ((1 << w) - 1)])
+    for k in range(n):
+        s = z3.Solver()
+        asg = {}
+        for i, v in enumerate(vs):
+            w = v.size()
+            if k < 5:
+                val = pats[i][k]
+            elif k < 5 + 2 * len(vs) and (k - 5) // 2 == i:
+                val = rnd.getrandbits(w) if (k - 5) % 2 else (1 << rnd.randrange(w))
+            else:
+                val = rnd.getrandbits(w)
+            asg[v] = val
+            s.add(v == z3.BitVecVal(val, w))
+        for e in extra:
+            s.add(e)
+        if str(s.check()) != "sat":
+            continue
+        m = s.model()
+        if z3.is_true(m.eval(formula, True)):
+            return m
+    return None
+
+
 def covers(bound, paths, timeout_ms=120000):
     """do the explored paths cover every input inside `bound`?  Values drawn by nondeterministic stubs are
     existentially quantified (some admissible draw leads down some explored path).  returns 'unsat' when covered"""
